@@ -1,6 +1,7 @@
 package c04
 
 import (
+	"context"
 	"fmt"
 	"net"
 	"os"
@@ -41,7 +42,15 @@ const window = 4 * time.Second
 // dialPair brings a connection to the engine through DialAsync: the harness listens, the engine dials, the
 // callback gets the connection (inside runs before dialPair returns).
 func dialPair(g *nbio.Engine, sndbuf, rcvbuf int, inside func(*nbio.Conn)) (*nbio.Conn, net.Conn, error) {
-	ln, err := net.Listen("tcp", "127.0.0.1:0")
+	// the receive buffer is set on the listening socket (accepted sockets inherit it, so that the window is
+	// right from the handshake on; shrinking it on an established connection makes the transfer crawl)
+	lc := net.ListenConfig{Control: func(network, address string, rc syscall.RawConn) error {
+		if rcvbuf <= 0 {
+			return nil
+		}
+		return rc.Control(func(fd uintptr) { _ = syscall.SetsockoptInt(int(fd), syscall.SOL_SOCKET, syscall.SO_RCVBUF, rcvbuf) })
+	}}
+	ln, err := lc.Listen(context.Background(), "tcp", "127.0.0.1:0")
 	if err != nil {
 		return nil, nil, err
 	}
@@ -69,9 +78,6 @@ func dialPair(g *nbio.Engine, sndbuf, rcvbuf int, inside func(*nbio.Conn)) (*nbi
 	if err != nil {
 		return nil, nil, err
 	}
-	if rcvbuf > 0 {
-		_ = peer.(*net.TCPConn).SetReadBuffer(rcvbuf)
-	}
 	select {
 	case r := <-ch:
 		if r.err != nil {
@@ -83,6 +89,15 @@ func dialPair(g *nbio.Engine, sndbuf, rcvbuf int, inside func(*nbio.Conn)) (*nbi
 		peer.Close()
 		return nil, nil, fmt.Errorf("dial callback not invoked within 5 s")
 	}
+}
+
+// scratchDir: memory-backed when available, so that preparing a file of a few MiB does not take seconds on a
+// busy disk ("" = the default temporary directory)
+func scratchDir() string {
+	if st, err := os.Stat("/dev/shm"); err == nil && st.IsDir() {
+		return "/dev/shm"
+	}
+	return ""
 }
 
 func apiOf(api string, i int) string {
@@ -105,7 +120,7 @@ func sendVia(conn *nbio.Conn, api string, i int, data []byte) (int, error) {
 		if len(data) == 0 {
 			return 0, nil
 		}
-		f, err := os.CreateTemp("", "c04sf")
+		f, err := os.CreateTemp(scratchDir(), "c04sf")
 		if err != nil {
 			return 0, fmt.Errorf("harness: temp file: %v", err)
 		}
@@ -249,7 +264,15 @@ func runCase(c Case) vlib.Result {
 	buf := make([]byte, c.ReadChunk)
 	received := int64(0)
 	last := time.Now()
+	lastAccepted := int64(0)
 	for received < int64(total) {
+		if a := atomic.LoadInt64(&accepted); a != lastAccepted {
+			// the no-progress window counts from the moment there is something (more) to deliver
+			if lastAccepted <= received {
+				last = time.Now() // nothing was outstanding until now
+			}
+			lastAccepted = a
+		}
 		_ = peer.SetReadDeadline(time.Now().Add(200 * time.Millisecond))
 		n, err := peer.Read(buf)
 		if n > 0 {
@@ -265,6 +288,15 @@ func runCase(c Case) vlib.Result {
 				if v := writeErr.Load(); v != nil {
 					res.Err = fmt.Errorf("%s (origin %s; peer alive)", v.(string), c.Origin)
 					return res
+				}
+				if atomic.LoadInt64(&accepted) <= received {
+					// nothing accepted is outstanding (the origin has not written yet, or is preparing its next
+					// piece): no backlog, nothing to wait for
+					if time.Since(last) > 10*window {
+						res.Err = fmt.Errorf("the write origin %s had issued only %d of %d planned bytes after %v (the callback it runs in was never invoked, or a write call is stuck)", c.Origin, atomic.LoadInt64(&accepted), total, 10*window)
+						return res
+					}
+					continue
 				}
 				if time.Since(last) > window {
 					isClosed, cerr := nbc.IsClosed()
@@ -344,6 +376,9 @@ func gen(t *rapid.T) Case {
 		// every write is bigger than half the 64 KiB coalescing limit, so each one is a queue entry of its own
 		c.Sizes = []int{rapid.SampledFrom([]int{40960, 65536, 70000}).Draw(t, "deepsize")}
 		c.Repeat = rapid.SampledFrom([]int{40, 200, 600}).Draw(t, "deeprepeat")
+		if c.API == "sendfile" || c.API == "mixed" {
+			c.API = "writev" // hundreds of writes: not one scratch file each
+		}
 		c.SndBuf, c.RcvBuf, c.DelayUs = 0, 0, 0
 		c.PauseMs = rapid.SampledFrom([]int{5, 30, 80}).Draw(t, "deeppause")
 		c.ReadChunk = rapid.SampledFrom([]int{65536, 1 << 20}).Draw(t, "deepchunk")
